@@ -189,6 +189,10 @@ Spec == Init /\ [][Next]_vars
 Bound == TLCGet("level") <= MaxDepth /\ \A x \in Roles : Len(chan[x]) <= MaxChan
 View == <<eps, chan>>              \* model checking: one visit per endpoint/channel state
 GenView == <<eps, chan, last, src>>   \* generation: one witness behaviour per EDGE (source state, step) of the View graph
+\* generation with one more step of history: one witness per PAIR of consecutive steps (the step before, without its
+\* prediction, is part of the view).  Where the code keeps state the specification does not, two calls that lead to the same
+\* specification state are then both followed by every next step (seeded change C18-i was missed for want of this).
+GenView2 == <<eps, chan, last, src, IF Len(hist) >= 2 THEN [f \in DOMAIN hist[Len(hist) - 1] \ {"p", "dev"} |-> hist[Len(hist) - 1][f]] ELSE <<>>>>
 
 \* ---------------------------------------------------------------- generic property formulas (on the step just taken)
 IsStep == last.a # "init"
